@@ -458,6 +458,9 @@ class ShardedSettings(SubCheck):
                 'eviction_policy': st.sampled_from(POLICIES),
                 'how': st.sampled_from(['reopen', 'pickle', 'reopen-twice']),
                 'keys': st.lists(c02.natives, min_size=1, max_size=12),
+                # how the directory is written when the cache is created and when it is opened again: the same directory
+                # spelled absolutely, with ~ (HOME points at the scratch parent) or with an environment variable
+                'spell': st.tuples(st.sampled_from(['absolute', 'absolute', 'tilde', 'envvar']), st.sampled_from(['absolute', 'tilde', 'envvar'])),
             }
         )
 
@@ -467,6 +470,12 @@ class ShardedSettings(SubCheck):
         import diskcache
 
         path = env.scratch.fresh('shs')
+        parent, base = os.path.split(path)
+        saved = {k: os.environ.get(k) for k in ('HOME', 'VERIF_DIR_VAR')}
+        os.environ['HOME'] = parent
+        os.environ['VERIF_DIR_VAR'] = parent
+        spelled = {'absolute': path, 'tilde': '~/' + base, 'envvar': '$VERIF_DIR_VAR/' + base}
+        first, again = [spelled[x] for x in case.get('spell', ('absolute', 'absolute'))]
         shards = case['shards']
         kw = {'cull_limit': case['cull_limit'], 'eviction_policy': case['eviction_policy']}
         if case['size_limit'] is not None:
@@ -475,7 +484,7 @@ class ShardedSettings(SubCheck):
         handles = []
         try:
             if case['kind'] == 'fanout':
-                fc = diskcache.FanoutCache(path, shards=shards, **kw)
+                fc = diskcache.FanoutCache(first, shards=shards, **kw)
                 handles.append(fc)
                 keys, seen = [], set()
                 for k in case['keys']:
@@ -489,22 +498,22 @@ class ShardedSettings(SubCheck):
                     fc2 = pickle.loads(pickle.dumps(fc))
                 else:
                     fc.close()
-                    fc2 = diskcache.FanoutCache(path, shards=shards)
+                    fc2 = diskcache.FanoutCache(again, shards=shards)
                     if case['how'] == 'reopen-twice':
                         fc2.close()
-                        fc2 = diskcache.FanoutCache(path, shards=shards)
+                        fc2 = diskcache.FanoutCache(again, shards=shards)
                 handles.append(fc2)
                 view = fc2
             else:
                 from diskcache.djangocache import DjangoCache
 
-                dj = DjangoCache(path, {'SHARDS': shards, 'OPTIONS': kw})
+                dj = DjangoCache(first, {'SHARDS': shards, 'OPTIONS': kw})
                 handles.append(dj)
                 keys = ['k%d' % n for n in range(len(case['keys']))]
                 for n, k in enumerate(keys):
                     dj.set(k, n, None)
                 dj.close()
-                dj2 = DjangoCache(path, {'SHARDS': shards})
+                dj2 = DjangoCache(again, {'SHARDS': shards})
                 handles.append(dj2)
                 view = dj2._cache
                 keys = [dj2.make_key(k) for k in keys]
@@ -532,13 +541,20 @@ class ShardedSettings(SubCheck):
                 for key in ('cull_limit', 'eviction_policy'):
                     if s[key] != kw[key]:
                         raise Violation('C18/settings-lost/fanout-%s' % key, 'shard %d persists %s=%r after %s, created with %r' % (i, key, s[key], case['how'], kw[key]))
-            return {'nontrivial': case['size_limit'] not in (None, 2**30) or shards >= 2, 'classes': ['kind=' + case['kind'], 'how=' + case['how']]}
+            if os.path.realpath(view.directory) != os.path.realpath(path):
+                raise Violation('C18/sharded/directory', 'opened as %r the cache reports directory %r, expected %r' % (again, view.directory, path))
+            return {'nontrivial': case['size_limit'] not in (None, 2**30) or shards >= 2, 'classes': ['kind=' + case['kind'], 'how=' + case['how'], 'spelled=%s/%s' % tuple(case.get('spell', ('absolute', 'absolute')))]}
         finally:
             for h in handles:
                 try:
                     h.close()
                 except Exception:
                     pass
+            for k, v in saved.items():
+                if v is None:
+                    os.environ.pop(k, None)
+                else:
+                    os.environ[k] = v
             env.scratch.drop(path)
 
 
